@@ -73,15 +73,19 @@ func c17Construct(c *ctx) {
 				continue
 			}
 			n++
-			call, has := core.HasCallFact(core.TFactsAt(ret.Block(), 0), true, "~/crypto.isOnCurve")
-			if !has {
+			facts := core.TFactsAt(ret.Block(), 0)
+			call, has := core.HasCallFact(facts, true, "~/crypto.isOnCurve")
+			if has {
+				for i := 0; i < 3; i++ {
+					if core.TermOf(call.Call.Args[i]).Key() != paramTerm(fn, i).Key() {
+						ok, why = false, "the on-curve check is not applied to the constructor's own (curve, X, Y)"
+					}
+				}
+			} else if inlineOnCurve(facts, paramTerm(fn, 0), paramTerm(fn, 1), paramTerm(fn, 2)) {
+				// the predicate written out at the call site: X, Y non-nil and curve.IsOnCurve(X, Y) true
+			} else {
 				ok, why = false, "a point is returned without a successful on-curve check"
 				continue
-			}
-			for i := 0; i < 3; i++ {
-				if core.TermOf(call.Call.Args[i]).Key() != paramTerm(fn, i).Key() {
-					ok, why = false, "the on-curve check is not applied to the constructor's own (curve, X, Y)"
-				}
 			}
 			sf := storedFields(ret.Results[0])
 			if sf["curve"] == nil || core.TermOf(sf["curve"]).Key() != paramTerm(fn, 0).Key() {
@@ -102,7 +106,8 @@ func c17Construct(c *ctx) {
 		}
 		c.r.Check(ok && n > 0, rule, fkey(rule, fn, "on-curve-gate"), c.fpos(fn), "a point is returned only on the true edge of isOnCurve(curve, X, Y) and stores exactly those values", why)
 	}
-	if fn := c.mustFunc(rule, "crypto", "isOnCurve"); fn != nil {
+	// (the unexported predicate may have been inlined into its two callers: then they are judged on the written-out form)
+	if fn := c.p.Func("crypto", "isOnCurve"); fn != nil && fn.Blocks != nil {
 		facts, _ := acceptFacts(fn, 0, true, 0)
 		ok := core.HasNilFact(facts, paramIs(fn, 1), false) && core.HasNilFact(facts, paramIs(fn, 2), false)
 		// every return is `false` or the curve's own verdict on exactly (x, y): no other way to say yes
@@ -222,6 +227,31 @@ func c17Construct(c *ctx) {
 				r0 := paramTerm(fn, 0)
 				t1, t2 := core.TermOf(a[1]), core.TermOf(a[2])
 				if core.IsFieldOf(core.TermOf(a[0]), r0, "curve") && t1.Op == "[]" && t2.Op == "[]" && constIs(t1.Args[1], 0) && constIs(t2.Args[1], 1) {
+					good = true
+				}
+			}
+			if !good {
+				// written out: returns the curve's verdict on the point's own fields (or true behind it), coordinates non-nil
+				r0 := paramTerm(fn, 0)
+				own := func(t *T, field string, idx int64) bool {
+					if field == "curve" {
+						return core.IsFieldOf(t, r0, "curve")
+					}
+					return t.Op == "[]" && core.IsFieldOf(t.Args[0], r0, "coords") && constIs(t.Args[1], idx)
+				}
+				facts := core.TFactsAt(ret.Block(), 0)
+				var oc *ssa.Call
+				if call, isC := res.(*ssa.Call); isC && call.Call.IsInvoke() && call.Call.Method.Name() == "IsOnCurve" {
+					oc = call
+				} else if v, isK := core.ConstBool(res); isK && v {
+					for _, f := range facts {
+						if f.Kind == core.FCall && f.Bool && f.Call.Call.IsInvoke() && f.Call.Call.Method.Name() == "IsOnCurve" {
+							oc = f.Call
+						}
+					}
+				}
+				if oc != nil && own(core.TermOf(oc.Call.Value), "curve", 0) && own(core.TermOf(oc.Call.Args[0]), "coords", 0) && own(core.TermOf(oc.Call.Args[1]), "coords", 1) &&
+					core.HasNilFact(facts, func(t *T) bool { return own(t, "coords", 0) }, false) && core.HasNilFact(facts, func(t *T) bool { return own(t, "coords", 1) }, false) {
 					good = true
 				}
 			}
@@ -561,4 +591,17 @@ func pointCleared(pt, errV ssa.Value) (bool, string) {
 		return false, "the decoded point never passes through EightInvEight(): a small-order component survives into the aggregated nonce"
 	}
 	return true, ""
+}
+
+// inlineOnCurve: the facts establish x != nil, y != nil and curve.IsOnCurve(x, y) == true for exactly these terms.
+func inlineOnCurve(facts []core.TFact, curve, x, y *T) bool {
+	okCall := false
+	for _, f := range facts {
+		if f.Kind == core.FCall && f.Bool && f.Call.Call.IsInvoke() && f.Call.Call.Method.Name() == "IsOnCurve" {
+			if core.TermOf(f.Call.Call.Value).Key() == curve.Key() && core.TermOf(f.Call.Call.Args[0]).Key() == x.Key() && core.TermOf(f.Call.Call.Args[1]).Key() == y.Key() {
+				okCall = true
+			}
+		}
+	}
+	return okCall && core.HasNilFact(facts, core.KeyIs(x), false) && core.HasNilFact(facts, core.KeyIs(y), false)
 }
